@@ -102,7 +102,7 @@ int main(void) {
             uint64_t pb = (base[r] & ~4095ull) - 4096, pe = ((base[r] + size[r] + 4095 + 64) & ~4095ull) + 4096;
             if (guard == 1) pe = base[r] + size[r] + 4096;
             void *p = mmap((void*)pb, pe - pb, PROT_READ|PROT_WRITE, MAP_PRIVATE|MAP_ANONYMOUS|MAP_FIXED, -1, 0);
-            if (p != (void*)pb) { printf("ERR mmap\n"); return 2; }
+            if (p != (void*)pb) { printf("ERR mmap %%lx %%lx\n", pb, pe); perror("mmap"); return 2; }
             memset(p, 0xEE, pe - pb);
             for (uint64_t i = 0; i < size[r]; i++) { unsigned v; scanf("%%2x", &v); ((uint8_t*)base[r])[i] = v; }
             if (guard == 1) mprotect((void*)(base[r] + size[r]), 4096, PROT_NONE);
@@ -158,8 +158,14 @@ def run_native(exe, func, args, regions):
     lines = ["%s %d %s" % (func, len(args), " ".join("%x" % (a & bv.mask(64)) for a in args)), str(len(regions))]
     for rg in regions:
         lines.append("%x %d %d %s" % (rg["base"], rg["size"], rg.get("guard", 0), "".join("%02x" % b for b in rg["init"])))
-    p = subprocess.run([exe], input=("\n".join(lines) + "\n").encode(), stdout=subprocess.PIPE, stderr=subprocess.PIPE, timeout=60)
-    out = p.stdout.decode().splitlines()
+    for attempt in range(4):
+        p = subprocess.run([exe], input=("\n".join(lines) + "\n").encode(), stdout=subprocess.PIPE, stderr=subprocess.PIPE, timeout=60)
+        out = p.stdout.decode().splitlines()
+        if out and out[0].startswith("ERR mmap"):   # transient ENOMEM under load: retry
+            import time as _t
+            _t.sleep(0.5 * (attempt + 1))
+            continue
+        break
     if p.returncode in (-11, -7):
         return None, "CRASH signal %d" % -p.returncode
     if p.returncode != 0 or not out or not out[0].startswith("RAX"):
@@ -182,7 +188,8 @@ def validate_concrete(img, setup, native_exe, ret_bits=32):
         return False, "concrete run produced %d paths" % len(finals)
     fst, out = finals[0]
     if out != "ret":
-        return False, "concrete run ended with %s" % out
+        # a memory-safety violation on concrete data: not a translator problem; the symbolic run reports it
+        return None, "concrete run ended with %s" % out
     rax, regs = run_native(native_exe, setup.func, setup.args, setup.regions)
     if rax is None:
         return False, regs
